@@ -317,4 +317,56 @@ theorem catmullM_le_coeff (v1 v2 v3 v4 : Pos ℝ) :
     rw [norm_mul]
     simp
 
+/-! ### one chord of one span -/
+
+/-- the interpolation-error identity for one coordinate of the span curve on `[a, a + h]`, chord weight `l`:
+`q(a + l h) − ((1 − l) q(a) + l q(a + h)) = −l (1 − l) h² · q''(ξ)/2`, `ξ = a + (1 + l) h / 3`. -/
+theorem catmullCoord_chord_error (p q r s a h l : ℝ) :
+    catmullCoord p q r s (a + l * h) - ((1 - l) * catmullCoord p q r s a + l * catmullCoord p q r s (a + h)) =
+      -(l * (1 - l) * h ^ 2) * (catmullAccCoord p q r s (a + (1 + l) * h / 3) / 2) := by
+  unfold catmullCoord catmullAccCoord; ring
+
+/-- **one chord, squared form**: on a parameter interval `[a, a + h] ⊆ [0, 1]` the point of the exact curve at
+`a + l h` and the point of the chord with weight `l` are within `h²/8 · M` (same parameter). -/
+theorem catmull_chord_sqDist (v1 v2 v3 v4 : Pos ℝ) (a h l : ℝ) (ha : 0 ≤ a) (hh : 0 ≤ h) (hb : a + h ≤ 1)
+    (hl0 : 0 ≤ l) (hl1 : l ≤ 1) :
+    sqDist (catmullExact v1 v2 v3 v4 (a + l * h))
+        (segPt (catmullExact v1 v2 v3 v4 a) (catmullExact v1 v2 v3 v4 (a + h)) l) ≤
+      (h ^ 2 / 8 * catmullM v1 v2 v3 v4) ^ 2 := by
+  have hξ0 : 0 ≤ a + (1 + l) * h / 3 := by positivity
+  have hξ1 : a + (1 + l) * h / 3 ≤ 1 := by nlinarith
+  have hacc := catmullAcc_sq_le v1 v2 v3 v4 (a + (1 + l) * h / 3) hξ0 hξ1
+  have hM := catmullM_nonneg v1 v2 v3 v4
+  simp only [sqDist, segPt, catmullExact, catmullCoord_chord_error]
+  simp only [catmullAcc] at hacc
+  generalize catmullAccCoord v1.x v2.x v3.x v4.x (a + (1 + l) * h / 3) = wx at *
+  generalize catmullAccCoord v1.y v2.y v3.y v4.y (a + (1 + l) * h / 3) = wy at *
+  generalize catmullM v1 v2 v3 v4 = M at *
+  have hk : l * (1 - l) ≤ 1 / 4 := by nlinarith [sq_nonneg (l - 1 / 2)]
+  have hk0 : 0 ≤ l * (1 - l) := mul_nonneg hl0 (by linarith)
+  have hk2 : (l * (1 - l) * h ^ 2) ^ 2 ≤ (h ^ 2 / 4) ^ 2 := by
+    apply pow_le_pow_left₀ (by positivity)
+    nlinarith [sq_nonneg h]
+  calc (-(l * (1 - l) * h ^ 2) * (wx / 2)) ^ 2 + (-(l * (1 - l) * h ^ 2) * (wy / 2)) ^ 2
+      = (l * (1 - l) * h ^ 2) ^ 2 * ((wx ^ 2 + wy ^ 2) / 4) := by ring
+    _ ≤ (h ^ 2 / 4) ^ 2 * (M ^ 2 / 4) :=
+        mul_le_mul hk2 (by linarith) (by positivity) (by positivity)
+    _ = (h ^ 2 / 8 * M) ^ 2 := by ring
+
+/-- **one chord**: the same with the Euclidean distance, for the chord `c` (`c < 50`) of the emitted polyline, between the
+emitted points `q(c/50)` and `q((c+1)/50)`: `‖q((c + l)/50) − ((1 − l) q(c/50) + l q((c+1)/50))‖ ≤ h²/8 · M`. -/
+theorem catmull_chord_within (v1 v2 v3 v4 : Pos ℝ) (c : Nat) (hc : c < 50) (l : ℝ) (hl0 : 0 ≤ l) (hl1 : l ≤ 1) :
+    eDist (catmullExact v1 v2 v3 v4 (((c : ℝ) + l) / 50))
+        (segPt (catmullExact v1 v2 v3 v4 ((c : ℝ) / 50)) (catmullExact v1 v2 v3 v4 (((c : ℝ) + 1) / 50)) l) ≤
+      catmullBound v1 v2 v3 v4 := by
+  have hc' : (c : ℝ) + 1 ≤ 50 := by
+    have : ((c + 1 : ℕ) : ℝ) ≤ ((50 : ℕ) : ℝ) := Nat.cast_le.mpr hc
+    push_cast at this; linarith
+  have hc0 : (0 : ℝ) ≤ c := Nat.cast_nonneg c
+  have h := catmull_chord_sqDist v1 v2 v3 v4 ((c : ℝ) / 50) (1 / 50) l (by positivity) (by norm_num)
+    (by linarith) hl0 hl1
+  rw [show (c : ℝ) / 50 + l * (1 / 50) = ((c : ℝ) + l) / 50 by ring,
+    show (c : ℝ) / 50 + 1 / 50 = ((c : ℝ) + 1) / 50 by ring] at h
+  exact eDist_le_of_sqDist_le (catmullBound_nonneg _ _ _ _) h
+
 end Rosu.C17
